@@ -873,49 +873,24 @@ theorem C19_npda_corrupt_empty_stack_symbol (isEmptyStr : γ → Bool) (d : NPDA
 
 /-! ## C. tie to the source: raise sites, order of checks, literals -/
 
-/-- Which exception class every validation method raises, in source order (regenerated from
-/repo on every run; the model's error kinds mirror exactly this table). -/
+/-- Which exception classes the validation methods of every class can raise (regenerated from
+/repo on every run; the error kinds of the model's rule systems mirror exactly this table).
+Stated per class and as a set (sorted, no repeats), so that splitting, merging or moving a check
+inside a class — a harmless rewrite — does not touch it, while dropping the last raise of a kind or
+adding a new kind does. -/
 theorem C19_raise_sites :
-    Gen.Validate.raiseSites.filter (fun t => !t.2.2.isEmpty && t.2.1 != "__setattr__" && t.2.1 != "__delattr__"
-        && !(t.1 == "Automaton" && t.2.1 == "validate")) =
-      [("Automaton", "_validate_initial_state", ["InvalidStateError"]),
-       ("Automaton", "_validate_initial_state_transitions", ["MissingStateError"]),
-       ("Automaton", "_validate_final_states", ["InvalidStateError"]),
-       ("FA", "_validate_reserved_names", ["InvalidStateError", "InvalidSymbolError"]),
-       ("DFA", "_validate_transition_missing_symbols", ["MissingSymbolError"]),
-       ("DFA", "_validate_transition_invalid_symbols", ["InvalidSymbolError"]),
-       ("DFA", "_validate_transition_start_states", ["MissingStateError"]),
-       ("DFA", "_validate_transition_end_states", ["InvalidStateError"]),
-       ("NFA", "_validate_transition_invalid_symbols", ["InvalidSymbolError"]),
-       ("NFA", "_validate_transition_end_states", ["InvalidStateError"]),
-       ("GNFA", "_validate_transition_invalid_symbols", ["InvalidRegexError"]),
-       ("GNFA", "_validate_transition_end_states",
-          ["InvalidStateError", "MissingStateError", "MissingStateError", "InvalidStateError"]),
-       ("GNFA", "_validate_final_state", ["InvalidStateError"]),
-       ("GNFA", "validate", ["InvalidStateError", "MissingStateError", "InvalidStateError"]),
-       ("PDA", "_validate_transition_invalid_input_symbols", ["InvalidSymbolError"]),
-       ("PDA", "_validate_transition_invalid_stack_symbols", ["InvalidSymbolError"]),
-       ("PDA", "_validate_initial_stack_symbol", ["InvalidSymbolError"]),
-       ("PDA", "_validate_acceptance", ["InvalidAcceptanceModeError"]),
-       ("PDA", "validate", ["InvalidSymbolError"]),
-       ("DPDA", "_validate_transition_lambda_transition_sibling", ["NondeterminismError"]),
-       ("TM", "_read_input_symbol_subset", ["MissingSymbolError"]),
-       ("TM", "_validate_blank_symbol", ["InvalidSymbolError"]),
-       ("TM", "_validate_nonfinal_initial_state", ["InitialStateError"]),
-       ("DTM", "_validate_transition_state", ["InvalidStateError"]),
-       ("DTM", "_validate_transition_symbols", ["InvalidSymbolError"]),
-       ("DTM", "_validate_transition_result_direction", ["InvalidDirectionError"]),
-       ("DTM", "_validate_transition_result", ["InvalidStateError", "InvalidSymbolError"]),
-       ("DTM", "_validate_final_state_transitions", ["FinalStateError"]),
-       ("NTM", "_validate_transition_state", ["InvalidStateError"]),
-       ("NTM", "_validate_transition_symbols", ["InvalidSymbolError"]),
-       ("NTM", "_validate_transition_result_direction", ["InvalidDirectionError"]),
-       ("NTM", "_validate_transition_result", ["InvalidStateError", "InvalidSymbolError"]),
-       ("NTM", "_validate_final_state_transitions", ["FinalStateError"]),
-       ("MNTM", "_validate_transition_symbols", ["InvalidSymbolError"]),
-       ("MNTM", "_validate_transition_state", ["InvalidStateError"]),
-       ("MNTM", "_validate_tapes_consistency",
-          ["InconsistentTapesException", "InconsistentTapesException"])] := by
+    Gen.Validate.raiseKinds =
+      [("Automaton", ["InvalidStateError", "MissingStateError"]),
+       ("FA", ["InvalidStateError", "InvalidSymbolError"]),
+       ("DFA", ["InvalidStateError", "InvalidSymbolError", "MissingStateError", "MissingSymbolError"]),
+       ("NFA", ["InvalidStateError", "InvalidSymbolError"]),
+       ("GNFA", ["InvalidRegexError", "InvalidStateError", "MissingStateError"]),
+       ("PDA", ["InvalidAcceptanceModeError", "InvalidSymbolError"]),
+       ("DPDA", ["NondeterminismError"]),
+       ("TM", ["InitialStateError", "InvalidSymbolError", "MissingSymbolError"]),
+       ("DTM", ["FinalStateError", "InvalidDirectionError", "InvalidStateError", "InvalidSymbolError"]),
+       ("NTM", ["FinalStateError", "InvalidDirectionError", "InvalidStateError", "InvalidSymbolError"]),
+       ("MNTM", ["InconsistentTapesException", "InvalidStateError", "InvalidSymbolError"])] := by
   decide
 
 /-- The order in which `validate()` of each class calls its checks (regenerated); the stages of
